@@ -308,7 +308,7 @@ def g_subjects(r, p, mode, ver, flags, nrandom=10):
     subs = ['']
     subs.extend(alphabet)
     try:
-        rx = M.parse(p, mode, ver, flags)
+        rx = M.parse(p, gmode(mode), ver, flags)
     except (M.Invalid, M.Undecided):
         rx = None
     for _ in range(nrandom):
@@ -336,12 +336,28 @@ def g_subjects(r, p, mode, ver, flags, nrandom=10):
     return out
 
 
+def gmode(mode):
+    """grammar of a mode: 'xpath-anchored' is the XPath grammar (groups, back-references, lazy quantifiers) translated
+    with anchors=False, i.e. matched against the whole subject; its patterns carry no '^'/'$' and no flags"""
+    return 'xpath' if mode == 'xpath-anchored' else mode
+
+
 def g_translate_case(r):
-    mode = 'xpath' if r.random() < 0.6 else 'xsd'
+    x = r.random()
+    mode = 'xpath' if x < 0.55 else 'xsd' if x < 0.9 else 'xpath-anchored'
     ver = '1.0' if r.random() < 0.6 else '1.1'
     flags = g_flags(r) if mode == 'xpath' else ''
-    g = Gen(r, mode, ascii_only='i' in flags, clean=r.random() < 0.5)
+    g = Gen(r, gmode(mode), ascii_only='i' in flags, clean=r.random() < 0.5 or mode == 'xpath-anchored')
     p = g.regexp()
+    if mode == 'xpath-anchored':
+        for _ in range(20):
+            # (back-references are left to ONE directed case: the capturing wrapper that shifts them is pinned by
+            # the repository's tests and listed as a finding)
+            if '^' not in p and '$' not in p and not re.search(r'\\[1-9]', p):
+                break
+            p = g.regexp()
+        else:
+            mode = 'xpath'
     if not g.clean and r.random() < 0.25:
         p = mutate(r, p)
     if 'x' in flags and r.random() < 0.7:
@@ -408,6 +424,8 @@ def _translate(p, flags, ver, mode):
     try:
         if mode == 'xpath':
             t = translate_pattern(p, fl, ver)
+        elif mode == 'xpath-anchored':
+            t = translate_pattern(p, fl, ver, True, True, False)
         else:
             t = translate_pattern(p, 0, ver, False, False, False)
     except RegexError as e:
@@ -450,7 +468,7 @@ def eng_match(comp, s):
 def model_parse(p, mode, ver, flags):
     """('valid', rx) | ('invalid', reason) | ('undecided', reason)"""
     try:
-        return ('valid', M.parse(p, mode, ver, flags))
+        return ('valid', M.parse(p, gmode(mode), ver, flags))
     except M.Invalid as e:
         return ('invalid', e.reason)
     except M.Undecided as e:
@@ -1200,6 +1218,12 @@ def run(h):
                 for ver in ('1.0', '1.1'):
                     h.case('translate', {'p': p, 'flags': '', 'ver': ver, 'mode': 'xpath', 'subjects': subjects})
                 h.case('functions', {'s': subjects[0], 'p': p, 'flags': ''})
+    if h.shard == 0:
+        # anchors=False with the XPath grammar: directed cases, one of them with back-references (listed finding)
+        for p, subjects in (('(a)(b)\\2', ['abb', 'aba', 'ab']), ('(a|b)*c', ['abc', 'c', 'abcd', 'xabc']),
+                            ('a+?b', ['aab', 'b', 'aabb']), ('(?:ab)+', ['abab', 'aba', '']),
+                            ('x(y(z))', ['xyz', 'xy', 'wxyz'])):
+            h.case('translate', {'p': p, 'flags': '', 'ver': '1.0', 'mode': 'xpath-anchored', 'subjects': subjects})
     for _ in range(h.n(1300)):
         h.case('translate', g_translate_case(r), cpu=60)
     for _ in range(h.n(230)):
@@ -1216,6 +1240,8 @@ def floors(v):
         reasons.append('fewer than 400 valid patterns judged by the reference')
     if v.got('agreed_invalid') < 40:
         reasons.append('fewer than 40 invalid patterns rejected by both sides')
+    if v.got('mode', 'xpath-anchored') < 50:
+        reasons.append('fewer than 50 patterns in the XPath grammar translated with anchors=False')
     if v.got('subject_comparisons', 'xpath') < 3000 or v.got('subject_comparisons', 'xsd') < 3000:
         reasons.append('fewer than 3000 subject comparisons in one of the modes')
     for f in ('class', 'subtraction', 'range', 'backref', 'anchor', 'lazy', 'quantity', 'group', 'alt', 'multi-escape',
